@@ -403,19 +403,86 @@ def write_syscall_probe(ctx, prop):
                     pre = rpc.call(op='snapshot', dir=st.ergodir)['ok']
                     cmd = ['strace', '-f', '-qq', '-o', tracef, '-e', 'trace=write,pwrite64,writev', '-P', st.log, ERGO] + args
                     p = subprocess.run(cmd, cwd=st.dir, input=stdin, stdin=None if stdin is not None else subprocess.DEVNULL, capture_output=True, timeout=120)
-                    writes = len([l for l in open(tracef) if 'write' in l]) if os.path.exists(tracef) else -1
+                    writes = count_write_calls(tracef)
                     n += 1
                     if p.returncode == 0 and writes > 1:
                         bad.append((name, size, writes))
             finally:
                 st.close()
-        ctx.cov['write_syscall_probe'] = {'commands_traced': n, 'multi_write_commands': bad[:5]}
+        # the REWRITING commands (plan, compact, the repair of a log without its final newline) must never write
+        # the live log in place, whatever the store looks like (empty after init, only a torn line, populated):
+        # their bytes go to a temporary file that is renamed over the log
+        inplace = []
+        big_plan = json.dumps({'title': 'big plan', 'tasks': [{'title': 'plan task %02d %s' % (k, 'x' * 400), 'after': (['plan task %02d %s' % (k - 1, 'x' * 400)] if k else [])}
+                                                              for k in range(24)]}).encode()
+        for shape in ('empty', 'torn_only', 'populated'):
+            for name, args, stdin in (('plan', ['--json', 'plan'], big_plan), ('compact', ['compact'], None)):
+                st = Store()
+                try:
+                    if shape == 'torn_only':
+                        with open(st.log, 'wb') as f:
+                            f.write(b'{"type":"new_task","ts":"2026-01-01T00:00:00Z","data":{"id":"AAAAAA"')
+                    elif shape == 'populated':
+                        for k in range(3):
+                            st.run(['new', 'task'], stdin=json.dumps({'title': 't%d' % k}).encode())
+                    tracef = os.path.join(st.root, 'trace.txt')
+                    cmd = ['strace', '-f', '-qq', '-o', tracef, '-e', 'trace=write,pwrite64,writev', '-P', st.log, ERGO] + args
+                    p = subprocess.run(cmd, cwd=st.dir, input=stdin, stdin=None if stdin is not None else subprocess.DEVNULL, capture_output=True, timeout=120)
+                    w = count_write_calls(tracef)
+                    n += 1
+                    if p.returncode == 0 and w > 0:
+                        inplace.append((name, shape, w))
+                finally:
+                    st.close()
+        ctx.cov['write_syscall_probe'] = {'commands_traced': n, 'multi_write_commands': bad[:5], 'rewrites_writing_in_place': inplace[:5]}
+        for b in inplace[:2]:
+            ctx.violations.append(('monitor', '`%s` on a store whose log is %s writes the live log in place (%d write(2) calls on .ergo/plans.jsonl) instead of renaming a complete temporary file over it: a kill between them leaves a prefix of the command' % b,
+                                   {'kind': 'syscalls', 'command': b[0], 'store': b[1], 'writes': b[2],
+                                    'how': 'strace -f -e trace=write -P .ergo/plans.jsonl ergo ' + b[0]}))
         for b in bad[:2]:
             ctx.violations.append(('monitor', 'command %s (payload %d bytes) reaches the log in %d write(2) calls: a kill between them leaves it half applied' % b,
                                    {'kind': 'syscalls', 'command': b[0], 'payload_bytes': b[1], 'writes': b[2],
                                     'how': 'strace -f -e trace=write -P .ergo/plans.jsonl ergo <command>'}))
     finally:
         rpc.close()
+
+
+def count_write_calls(tracef):
+    """Number of write-family system calls the traced command ISSUED on the log, from `strace -f -o` output.
+    A call split by strace into `<unfinished ...>` / `<... resumed>` lines is one call; a short write (the
+    kernel took fewer bytes than asked) followed by a call for exactly the remainder is one logical write of
+    the code (the continuation loop of os.File.Write), not two writes of the command."""
+    if not os.path.exists(tracef):
+        return -1
+    calls = []          # (pid, requested, returned)
+    pending = {}
+    for l in open(tracef, errors='replace'):
+        m = re.match(r'^(\d+)\s+(?:write|pwrite64|writev)\(', l)
+        pid = m.group(1) if m else None
+        if m:
+            req = re.search(r',\s*(\d+)(?:,\s*\d+)?\s*(?:\)|<unfinished)', l)
+            reqn = int(req.group(1)) if req else None
+            ret = re.search(r'\)\s*=\s*(-?\d+)', l)
+            if ret:
+                calls.append((pid, reqn, int(ret.group(1))))
+            else:
+                pending[pid] = reqn
+            continue
+        m = re.match(r'^(\d+)\s+<\.\.\.\s+(?:write|pwrite64|writev) resumed>.*=\s*(-?\d+)', l)
+        if m and m.group(1) in pending:
+            calls.append((m.group(1), pending.pop(m.group(1)), int(m.group(2))))
+    for pid, reqn in pending.items():
+        calls.append((pid, reqn, None))
+    n, k = 0, 0
+    while k < len(calls):
+        n += 1
+        pid, req, ret = calls[k]
+        k += 1
+        # merge the continuation(s) of a short write
+        while req is not None and ret is not None and 0 <= ret < req and k < len(calls) and calls[k][1] == req - ret:
+            pid, req, ret = calls[k]
+            k += 1
+    return n
 
 
 def cycle_difftest(ctx):
@@ -920,6 +987,49 @@ def check_C16(ctx):
     driver.history_check(ctx, tags, n // 2, steps, profile={'weights': {'new': 30, 'set': 30, 'claim': 30, 'seq': 4, 'prune': 2, 'plan': 2, 'compact': 2},
                                                             'odd_agent_p': 0.3, 'agent_p': 0.9})
     json_surface(ctx)
+    sequence_replies_on_ordered_items(ctx)
+
+
+def sequence_replies_on_ordered_items(ctx):
+    """`--json sequence` replies vs the store on items that are ALREADY ordered (directly, through other items, or
+    by an edge recorded twice): every edge a successful reply reports must be among the dependencies `show` reports
+    afterwards, and must still be there after an intermediate edge is removed."""
+    rng = random.Random(ctx.seed * 97 + 5)
+    bad = []
+    runs = 0
+    for rnd in range(2 if ctx.quick() else 12):
+        st = Store()
+        try:
+            ids = []
+            for k in range(rng.choice([4, 5])):
+                rc, out, _ = st.run(['--json', 'new', 'task'], stdin=json.dumps({'title': 'item %d' % k}).encode())
+                ids.append(json.loads(out)['id'])
+            st.run(['sequence'] + ids)                      # ids[0] <- ids[1] <- ... a chain
+            pairs = [(i, j) for i in range(len(ids)) for j in range(i + 1, len(ids))]
+            rng.shuffle(pairs)
+            for (i, j) in pairs[:4]:
+                rc, out, err = st.run(['--json', 'sequence', ids[i], ids[j]])
+                runs += 1
+                if rc != 0:
+                    continue
+                rep = json.loads(out)
+                deps = lambda x: json.loads(st.run(['--json', 'show', x])[1]).get('deps') or []
+                for e in rep.get('edges', []):
+                    if e['to_id'] not in deps(e['from_id']):
+                        bad.append(('reported_edge_not_in_store', [ids[i], ids[j]], e, deps(e['from_id'])))
+                if j - i >= 2 and not bad:
+                    # remove one intermediate edge: the explicitly requested ordering must survive
+                    st.run(['sequence', 'rm', ids[j - 1], ids[j]])
+                    if ids[i] not in deps(ids[j]):
+                        bad.append(('explicit_edge_lost_after_unrelated_rm', [ids[i], ids[j]], deps(ids[j])))
+                    st.run(['sequence', ids[j - 1], ids[j]])
+        finally:
+            st.close()
+    ctx.cov['sequence_replies_on_ordered_items'] = {'sequence_commands': runs, 'bad': len(bad)}
+    for b in bad[:2]:
+        ctx.violations.append(('monitor', '`--json sequence` reported an edge that the store does not hold: %s' % (b,),
+                               {'kind': 'cli', 'what': b[0], 'sequence_args': b[1], 'detail': [str(x) for x in b[2:]],
+                                'how': 'new task x4-5; sequence <all>; --json sequence <an already ordered pair>; --json show'}))
 
 
 def json_surface(ctx):
@@ -1497,6 +1607,7 @@ def check_C11(ctx):
     prof = {'weights': {'plan': 45, 'new': 15, 'set': 12, 'prune': 6, 'compact': 3, 'seq': 6, 'claim': 4, 'malformed': 4}}
     driver.history_check(ctx, tags, n, steps, profile=prof)
     plan_malformed(ctx)
+    unterminated_valid_tail(ctx, kinds=('plan',))     # "nothing that existed before is altered", on a log without its final newline
 
 
 def plan_malformed(ctx):
@@ -1736,32 +1847,44 @@ def check_C12(ctx):
     unterminated_valid_tail(ctx)
 
 
-def unterminated_valid_tail(ctx):
+def unterminated_valid_tail(ctx, kinds=('new', 'plan', 'set')):
     """A log whose last line is a complete event lacking only its newline (editor, merge tool, write cut
-    before the newline): reads show that event, and the next mutation must keep it (history only grows)."""
+    before the newline): reads show that event, and the next mutation — whichever write path it takes
+    (append: new / set; rewrite: plan) — must keep it (history only grows)."""
     rpc = Rpc()
     try:
+        k = 0
         for k in range(3 if ctx.quick() else 20):
-            h = history.History(rpc, random.Random(ctx.seed * 53 + k))
-            for _ in range(8):
-                h.do(h.gen_request())
-            data = h.store.read_log()
-            if not data.endswith(b'\n') or data.count(b'\n') < 2:
+            for kind in kinds:
+                h = history.History(rpc, random.Random(ctx.seed * 53 + k))
+                for _ in range(8):
+                    h.do(h.gen_request())
+                data = h.store.read_log()
+                tasks = [t['id'] for t in h.snap['tasks'] if not t['is_epic']]
+                if not data.endswith(b'\n') or data.count(b'\n') < 2 or (kind == 'set' and not tasks):
+                    h.close()
+                    continue
+                with open(h.store.log, 'wb') as f:
+                    f.write(data[:-1])
+                before = rpc.call(op='decode', dir=h.store.ergodir).get('ok')
+                if kind == 'new':
+                    rc, out, err = h.store.run(['new', 'task'], stdin=b'{"title":"after unterminated tail"}')
+                    grow = 1
+                elif kind == 'set':
+                    rc, out, err = h.store.run(['set', tasks[0]], stdin=b'{"body":"after unterminated tail"}')
+                    grow = 1
+                else:
+                    rc, out, err = h.store.run(['--json', 'plan'], stdin=b'{"title":"p","tasks":[{"title":"a"},{"title":"b","after":["a"]}]}')
+                    grow = 4
+                after = rpc.call(op='decode', dir=h.store.ergodir).get('ok')
+                if before is None or after is None or after[:len(before)] != before or (rc == 0 and len(after) != len(before) + grow):
+                    ctx.violations.append(('monitor', 'a mutation (%s) after a complete-but-unterminated last line dropped or altered recorded history' % kind,
+                                           {'kind': 'cli', 'command': kind, 'events_before': len(before or []), 'events_after': len(after or []), 'rc': rc,
+                                            'how': 'strip the final newline of plans.jsonl; ergo ' + kind}))
+                    h.close()
+                    return
                 h.close()
-                continue
-            with open(h.store.log, 'wb') as f:
-                f.write(data[:-1])
-            before = rpc.call(op='decode', dir=h.store.ergodir).get('ok')
-            rc, out, err = h.store.run(['new', 'task'], stdin=b'{"title":"after unterminated tail"}')
-            after = rpc.call(op='decode', dir=h.store.ergodir).get('ok')
-            if before is None or after is None or after[:len(before)] != before or (rc == 0 and len(after) != len(before) + 1):
-                ctx.violations.append(('monitor', 'a mutation after a complete-but-unterminated last line dropped or altered recorded history',
-                                       {'kind': 'cli', 'events_before': len(before or []), 'events_after': len(after or []), 'rc': rc,
-                                        'how': 'strip the final newline of plans.jsonl; ergo new task'}))
-                h.close()
-                break
-            h.close()
-        ctx.cov['unterminated_valid_tail_runs'] = k + 1
+        ctx.cov['unterminated_valid_tail_runs'] = (k + 1) * len(kinds)
     finally:
         rpc.close()
 
